@@ -60,7 +60,11 @@ def run(ctx):
     out = ctx.go_test("c25", "^TestC25$", cases=table + frames + seqs, timeout=2400)
     cc.check_table(out)
     ex = out.get("extra") or {}
-    if ex.get("model_delivery_mismatch"):
-        raise vlib.Infra("model and code disagree on which untampered packets are delivered (%s cases): fix the model" % ex["model_delivery_mismatch"])
     ctx.absorb(out)
+    # exit 2 only when the real code wrote, decoded and round-tripped cleanly but the model predicted otherwise;
+    # any rejection of the real writer's untampered output is recorded by the harness as a violation (verdict).
+    if ex.get("model_delivery_mismatch") and not cc.unknown_violations("C25", out):
+        raise vlib.Infra("the real code round-trips and decodes fine but the model predicted other deliveries (%s cases): fix the model" % ex["model_delivery_mismatch"])
+    if ex.get("model_delivery_mismatch"):
+        ctx.notes.append("model/code delivery prediction differs in %s clean cases (not a verdict; violations reported separately)" % ex["model_delivery_mismatch"])
     ctx.exhaustive = False
